@@ -60,7 +60,7 @@ Definition gate (s : store) (o : op) : Prop :=
   | MAC u _ _ => exists ob, lookup u (objs s) = Some ob /\ mac_kind (oty ob) /\ ost ob = Some Active
                             /\ has_bit (omask ob) bMAC_GENERATE = true
   | GetWrap _ w => usable s w SymmetricKey bWRAP_KEY     (* and the wrapped object is a key or secret data: get_wrap_gated *)
-  | DeriveKey us _ =>
+  | DeriveKey us _ _ =>
       us <> [] /\ forall u, In u us -> exists ob, lookup u (objs s) = Some ob /\ derivable (oty ob) = true
                                                    /\ has_bit (omask ob) bDERIVE_KEY = true
   | _ => True
